@@ -50,6 +50,12 @@ def _blocks(node):
             yield fld, lst
 
 
+def _always_raises(stmts) -> bool:
+    from .cfg import ends_in_raise
+
+    return ends_in_raise(stmts)
+
+
 def _simple_subject(e: ast.expr) -> bool:
     while isinstance(e, ast.Attribute):
         e = e.value
@@ -340,7 +346,7 @@ def canon_function(fn) -> int:
     mergeable = {nm for nm, k in pairs.items() if counts.get(nm, 0) == 2 * k and nm not in params}
     match_counter = [0]
 
-    def rewrite_block(stmts: list[ast.stmt]) -> list[ast.stmt]:
+    def rewrite_block(stmts: list[ast.stmt], elif_arm: bool = False) -> list[ast.stmt]:
         nonlocal changed
         out: list[ast.stmt] = []
         i = 0
@@ -349,7 +355,7 @@ def canon_function(fn) -> int:
             # recurse first
             if not isinstance(st, (ast.FunctionDef, ast.AsyncFunctionDef, ast.ClassDef)):
                 for fld, lst in list(_blocks(st)):
-                    setattr(st, fld, rewrite_block(lst))
+                    setattr(st, fld, rewrite_block(lst, elif_arm=(fld == "orelse" and isinstance(st, ast.If) and len(lst) == 1 and isinstance(lst[0], ast.If))))
                 if isinstance(st, ast.Try):
                     for h in st.handlers:
                         h.body = rewrite_block(h.body)
@@ -369,6 +375,11 @@ def canon_function(fn) -> int:
             # C2
             if isinstance(st, ast.If) and isinstance(st.test, ast.UnaryOp) and isinstance(st.test.op, ast.Not) and st.orelse and not (len(st.orelse) == 1 and isinstance(st.orelse[0], ast.If)):
                 st.test, st.body, st.orelse = st.test.operand, st.orelse, st.body
+                changed += 1
+            # C2b: a stand-alone `if good: A else: raise` (not an arm of an if / elif chain) reads as the guard clause
+            if isinstance(st, ast.If) and not elif_arm and st.orelse and not (len(st.orelse) == 1 and isinstance(st.orelse[0], ast.If)) and _always_raises(st.orelse) and not always_exits(st.body):
+                neg = st.test.operand if isinstance(st.test, ast.UnaryOp) and isinstance(st.test.op, ast.Not) else ast.copy_location(ast.UnaryOp(op=ast.Not(), operand=st.test), st.test)
+                st.test, st.body, st.orelse = neg, st.orelse, st.body
                 changed += 1
             # C3
             if isinstance(st, ast.If) and st.orelse and always_exits(st.body) and not (len(st.orelse) == 1 and isinstance(st.orelse[0], ast.If)):
